@@ -219,7 +219,7 @@ def run(run):
     thorough = run.tier == "thorough"
     depth = 3 if thorough else 2
     cases = [{"base": b, "chain": c, "maxq": 5 if depth == 2 or len(c) <= 2 else 4} for b in BASES for c in chains(depth)]
-    secs = [Section("chains", cases, chain_case, horizon=60, chunk=8, desc="all modifier chains of depth <= %d with at most one transcendental modifier over %d bases" % (depth, len(BASES)))]
+    secs = [Section("chains", cases, chain_case, horizon=300, chunk=8, desc="all modifier chains of depth <= %d with at most one transcendental modifier over %d bases" % (depth, len(BASES)))]
     # transcendental on transcendental: the representative chains of D18/D19 in quick, all 180 depth-2 pairs in thorough
     if thorough:
         tp = [{"base": b, "chain": [list(a), list(c)], "maxq": 2} for b in BASES for a in TRANS for c in TRANS]
@@ -227,10 +227,10 @@ def run(run):
         tp = [{"base": G("ISWAP"), "chain": [["power", "1/3"], ["power", "1/2"]]}, {"base": G("X"), "chain": [["exp"], ["power", "1/2"]]}, {"base": G("X"), "chain": [["exp"], ["exp"]]},
               {"base": G("CNOT"), "chain": [["exp"], ["exp"]]}, {"base": G("SWAP"), "chain": [["exp"], ["power", "1/2"]]}, {"base": G("T"), "chain": [["exp"]]},
               {"base": G("Z"), "chain": [["power", "1/2"], ["power", "1/2"]]}, {"base": G("S"), "chain": [["power", "1/2"], ["exp"]]}]
-    secs.append(Section("transcendental_pairs", tp, chain_case, horizon=60, chunk=1, desc="transcendental modifier applied on top of a transcendental one"))
+    secs.append(Section("transcendental_pairs", tp, chain_case, horizon=300, chunk=1, desc="transcendental modifier applied on top of a transcendental one"))
     term = [{"base": G("T"), "chain": c, "maxq": 2} for c in ([["exp"]], [["dagger"], ["exp"]], [["power", 2], ["exp"]], [["power", "1/2"]], [["power", "1/3"]])] + \
            [{"base": G("S"), "chain": [["exp"]], "maxq": 2}, {"base": G("PHASE", 2.5), "chain": [["exp"]], "maxq": 2}]
-    secs.append(Section("termination", term, chain_case, horizon=90, chunk=1, horizon_is_violation=True,
+    secs.append(Section("termination", term, chain_case, horizon=180, chunk=1, horizon_is_violation=True,
                         desc="transcendental modifiers over the phase gates whose float phases once made sympy loop forever (D17): a matrix must come back at all"))
     cc = [{"gate": n, "chain": c} for n in ("RX", "RY", "RZ", "PHASE", "CPHASE", "XX", "XY", "GPi", "GPi2")
           for c in ([["dagger"]], [["controlled", 1]], [["power", 2]], [["power", -1]], [["dagger"], ["controlled", 1]], [["controlled", 1], ["dagger"]], [["power", 2], ["dagger"]],
